@@ -96,6 +96,8 @@ pub struct Fx {
     pub lp_tcp: u16,
     pub uds: PathBuf,
     pub socks_port: u16,
+    /// second SOCKS listener of the client, on [::1] (0 = no IPv6 loopback available)
+    pub socks6_port: u16,
     pub http_port: u16,
     pub lp_udp: u16,
     /// further plain UDP remotes (same target): used by cases that need a listener nobody else talks to
@@ -309,6 +311,13 @@ async fn build_fixture() -> Result<Fx, String> {
     let lp_tcp = free_port().await;
     let socks_port = free_port().await;
     let http_port = free_port().await;
+    let socks6_port = {
+        match TcpListener::bind("[::1]:0").await {
+            Ok(l) => l.local_addr().map(|a| a.port()).unwrap_or(0),
+            Err(_) => 0, // no IPv6 loopback here: the IPv6 variants are skipped
+        }
+    };
+    let socks6_bind = if socks6_port == 0 { free_port().await } else { socks6_port };
     let lp_udp = {
         let s = UdpSocket::bind("127.0.0.1:0").await.map_err(|e| e.to_string())?;
         s.local_addr().unwrap().port()
@@ -331,6 +340,7 @@ async fn build_fixture() -> Result<Fx, String> {
             Remote { local_addr: LocalSpec::DomainSocket(uds.clone()), remote_addr: RemoteSpec::Inet(("127.0.0.1".into(), tport)), protocol: Protocol::Tcp },
             Remote { local_addr: inet(socks_port), remote_addr: RemoteSpec::Socks, protocol: Protocol::Tcp },
             Remote { local_addr: inet(http_port), remote_addr: RemoteSpec::Http, protocol: Protocol::Tcp },
+            Remote { local_addr: LocalSpec::Inet((if socks6_port == 0 { "127.0.0.1" } else { "::1" }.to_string(), socks6_bind)), remote_addr: RemoteSpec::Socks, protocol: Protocol::Tcp },
             Remote { local_addr: inet(lp_udp), remote_addr: RemoteSpec::Inet(("127.0.0.1".into(), uport)), protocol: Protocol::Udp },
             ];
             v.append(&mut extra_remotes);
@@ -357,7 +367,7 @@ async fn build_fixture() -> Result<Fx, String> {
         }
         tokio::time::sleep(Duration::from_millis(10)).await;
     }
-    Ok(Fx { tcp_target_port: tport, closed_port, udp_target_port: uport, udp_target2_port: uport2, lp_tcp, uds, socks_port, http_port, lp_udp, lp_udp_extra, registry })
+    Ok(Fx { tcp_target_port: tport, closed_port, udp_target_port: uport, udp_target2_port: uport2, lp_tcp, uds, socks_port, socks6_port, http_port, lp_udp, lp_udp_extra, registry })
 }
 
 pub fn fx() -> Result<&'static Fx, String> {
@@ -702,6 +712,10 @@ pub struct UdpClient {
     /// plain UDP remote to use: 0 = the shared one, k = the k-th extra listener (nobody else talks to it)
     #[serde(default)]
     pub listener: u8,
+    /// SOCKS5 only: the local client reaches the SOCKS listener and its UDP relay over IPv6 loopback (a second SOCKS listener of the
+    /// client on [::1]); the relay's replies then carry an IPv6 address in their RFC 1928 header
+    #[serde(default)]
+    pub via_v6: bool,
 }
 
 /// many UDP clients that stay open at the same time, and TCP connections made while they are
@@ -719,11 +733,41 @@ pub struct UdpCase {
 
 async fn run_udp_client(f: &'static Fx, idx: usize, c: UdpClient, hold_until: Option<Arc<std::sync::atomic::AtomicBool>>) -> Result<(), (String, String)> {
     let e = |sig: &str, msg: String| (sig.to_string(), format!("udp client {idx} (socks5={}, atyp={}): {msg}", c.socks5, c.atyp));
-    let sock = UdpSocket::bind("127.0.0.1:0").await.map_err(|x| e("c01-harness", x.to_string()))?;
+    let v6 = c.via_v6 && c.socks5 && f.socks6_port != 0;
+    let sock = UdpSocket::bind(if v6 { "[::1]:0" } else { "127.0.0.1:0" }).await.map_err(|x| e("c01-harness", x.to_string()))?;
     let me = (TOKEN.fetch_add(1, Ordering::Relaxed) as u32) << 8;
     // for SOCKS5: association
     let mut _ctrl = None;
-    let relay: SocketAddr = if c.socks5 {
+    let relay: SocketAddr = if v6 {
+        let mut s = TcpStream::connect(("::1", f.socks6_port)).await.map_err(|x| e("c01-entry-handshake", x.to_string()))?;
+        s.write_all(&[5, 1, 0]).await.map_err(|x| e("c01-entry-handshake", x.to_string()))?;
+        let mut sel = [0u8; 2];
+        s.read_exact(&mut sel).await.map_err(|x| e("c01-entry-handshake", x.to_string()))?;
+        s.write_all(&rs::v5_request(5, 3, 0, &rs::Addr5::V6([0; 16]), 0)).await.map_err(|x| e("c01-entry-handshake", x.to_string()))?;
+        let mut head = [0u8; 4];
+        s.read_exact(&mut head).await.map_err(|x| e("c01-entry-handshake", format!("associate reply: {x}")))?;
+        if head[..3] != [5, 0, 0] {
+            return Err(e("c01-entry-handshake", format!("associate reply {head:02x?}")));
+        }
+        let relay = match head[3] {
+            4 => {
+                let mut rest = [0u8; 18];
+                s.read_exact(&mut rest).await.map_err(|x| e("c01-entry-handshake", format!("associate reply: {x}")))?;
+                let mut ip = [0u8; 16];
+                ip.copy_from_slice(&rest[..16]);
+                let ip = std::net::Ipv6Addr::from(ip);
+                SocketAddr::from((if ip.is_unspecified() { std::net::Ipv6Addr::LOCALHOST } else { ip }, u16::from_be_bytes([rest[16], rest[17]])))
+            }
+            1 => {
+                let mut rest = [0u8; 6];
+                s.read_exact(&mut rest).await.map_err(|x| e("c01-entry-handshake", format!("associate reply: {x}")))?;
+                SocketAddr::from((std::net::Ipv6Addr::LOCALHOST, u16::from_be_bytes([rest[4], rest[5]])))
+            }
+            x => return Err(e("c01-entry-handshake", format!("associate reply with ATYP {x}"))),
+        };
+        _ctrl = Some(s);
+        relay
+    } else if c.socks5 {
         let mut s = TcpStream::connect(("127.0.0.1", f.socks_port)).await.map_err(|x| e("c01-entry-handshake", x.to_string()))?;
         s.write_all(&[5, 1, 0]).await.map_err(|x| e("c01-entry-handshake", x.to_string()))?;
         let mut sel = [0u8; 2];
@@ -876,7 +920,7 @@ pub fn check_crowd(case: &CrowdCase) -> Outcome {
         // go away runs into its 20 s limit
         let release = Arc::new(std::sync::atomic::AtomicBool::new(false));
         let udp: Vec<_> = (0..case.n_udp as usize)
-            .map(|i| tokio::spawn(run_udp_client(f, i, UdpClient { socks5: case.socks5, atyp: (i % 3) as u8, sizes: vec![16], replies: 1, targets: vec![], hold_ms: 0, idle_ms: 0, idle_at: 0, idle_send_only: false, listener: 0 }, Some(release.clone()))))
+            .map(|i| tokio::spawn(run_udp_client(f, i, UdpClient { socks5: case.socks5, atyp: (i % 3) as u8, sizes: vec![16], replies: 1, targets: vec![], hold_ms: 0, idle_ms: 0, idle_at: 0, idle_send_only: false, listener: 0, via_v6: false }, Some(release.clone()))))
             .collect();
         // the exchanges take well under a second
         tokio::time::sleep(Duration::from_millis(1500)).await;
@@ -978,7 +1022,7 @@ fn conn() -> impl Strategy<Value = Conn> {
 
 pub fn run(ctx: &Ctx, rep: &mut Report) {
     rep.rule = "one real client (client_main_inner) and one real server (run_listener) on loopback with remotes for every entry kind. TCP cases = 1-8 concurrent connections, each: entry {fixed TCP remote, Unix-socket remote, SOCKS4, SOCKS4a by name, SOCKS5 IPv4/domain/IPv6, HTTP CONNECT} x payload sizes each way 0..3 MB in generated chunkings/flushes x close order {client half-close first, target half-close first, simultaneous, target reset, target port closed}, plus a stalled-consumer family (40+ MB one way while the receiving end does not read until the sender has been blocked for 300 ms, so that the sending bridge exhausts its flow-control window); \
-                content is a function of (connection token, direction, offset). Crowd cases = 20/70/140 UDP clients (SOCKS5 associations or plain) held open at once while TCP connections through four entry kinds are made. UDP cases = 1-6 concurrent local sockets (plain UDP remote or SOCKS5 association with IPv4/domain/IPv6 target addresses, one association addressing two UDP services on the same host), datagram sizes {0,1,2,3,4,512,1400,8000,60000}, target replying 0-3 tagged copies. \
+                content is a function of (connection token, direction, offset). Crowd cases = 20/70/140 UDP clients (SOCKS5 associations or plain) held open at once while TCP connections through four entry kinds are made. UDP cases = 1-6 concurrent local sockets (plain UDP remote or SOCKS5 association with IPv4/domain/IPv6 target addresses, the SOCKS listener and its relay reached over IPv4 or - a third of the SOCKS5 clients - over IPv6 loopback through a second listener on [::1], so that the reply headers carry IPv6 addresses, one association addressing two UDP services on the same host), datagram sizes {0,1,2,3,4,512,1400,8000,60000}, target replying 0-3 tagged copies. \
                 Oracle: both directions byte-exact and complete with EOF propagated in each close order, closed (not hanging) on target reset/refusal (20 s limit, hang verdicts confirmed by a re-run); UDP replies only on the socket of the originating client, from the address it sent to, payload unmodified, no duplicates, SOCKS5 replies prefixed by a header an independent RFC 1928 parser accepts; \
                 loss tolerated only after three failed exchanges. Non-trivial = bidirectional traffic with a half-close, or >= 2 concurrent clients, or a UDP payload < 4 bytes. Distinct = distinct case value."
         .into();
@@ -1042,7 +1086,7 @@ pub fn run(ctx: &Ctx, rep: &mut Report) {
             let idle_ms = [21_500u32, 12_000, 31_000][((i / 2) % 3) as usize];
             let send_only = i % 2 == 1;
             let listener = 1 + (i % 8) as u8;
-            let mk = |socks5: bool, atyp: u8, replies: u8| UdpClient { socks5, atyp, sizes: vec![40, 3, 700, 40], replies, targets: vec![], hold_ms: 0, idle_ms, idle_at: 2, idle_send_only: send_only, listener };
+            let mk = |socks5: bool, atyp: u8, replies: u8| UdpClient { socks5, atyp, sizes: vec![40, 3, 700, 40], replies, targets: vec![], hold_ms: 0, idle_ms, idle_at: 2, idle_send_only: send_only, listener, via_v6: false };
             // exactly ONE user of the plain UDP remote (per-listener state about 'the previous sender' stays on it), or two that alternate
             let mut clients = vec![mk(false, 0, 1), mk(true, 0, 2), mk(true, 1, 1), mk(true, 2, 1)];
             if (i / 2) % 2 == 1 {
@@ -1058,7 +1102,7 @@ pub fn run(ctx: &Ctx, rep: &mut Report) {
         ctx.tier.pick(480, 10_000),
         20,
         || {
-            let client = (any::<bool>(), 0u8..3, prop::collection::vec(prop::sample::select(vec![0u32, 1, 2, 3, 4, 7, 512, 1400, 8000, 60_000]), 1..5), 0u8..4, prop::collection::vec(0u8..2, 0..4)).prop_map(|(socks5, atyp, sizes, replies, targets)| UdpClient { socks5, atyp, sizes, replies, targets, hold_ms: 0, idle_ms: 0, idle_at: 0, idle_send_only: false, listener: 0 });
+            let client = (any::<bool>(), 0u8..3, prop::collection::vec(prop::sample::select(vec![0u32, 1, 2, 3, 4, 7, 512, 1400, 8000, 60_000]), 1..5), 0u8..4, prop::collection::vec(0u8..2, 0..4), prop::bool::weighted(0.3)).prop_map(|(socks5, atyp, sizes, replies, targets, via_v6)| UdpClient { socks5, atyp, sizes, replies, targets, hold_ms: 0, idle_ms: 0, idle_at: 0, idle_send_only: false, listener: 0, via_v6 });
             prop::collection::vec(client, 1..=6).prop_map(|clients| UdpCase { clients })
         },
         check_udp,
